@@ -23,6 +23,11 @@ fn one(text: &str, api: &str) -> Value {
         }
     };
     match catch(|| {
+        // the same text may have been title-cased through another front-end a moment ago (api "after-md"):
+        // whatever that call left behind must not reach this one
+        if api == "after-md" {
+            let _ = make_title_case_str(text, &harper_core::parsers::Markdown::default(), &dict);
+        }
         let out = run(text);
         let out2 = run(&out);
         (out, out2)
@@ -111,12 +116,19 @@ pub fn main(a: &Args) {
     for s in corpus.iter().take(a.num("corpus-n", 300) as usize) {
         texts.push(s.replace('\n', " "));
     }
-    for t in ["tRNA", "pH", "hELLO wORLD", "NASA pH", "tRNA: pH 7", "iPhone and eBay", "mRNA", "", " ", "a", "A", ".", "1", "the", "THE", "ß", "İstanbul", "i̇stanbul", "ǅ", "o'clock", "O’Clock"] {
+    for t in ["# getting started with harper", "## the state of the art", "a note on the *quick* brown fox\n", "`cargo` is the package manager", "- a list item here",
+        "> quoted title words", "[a link](http://x.y) in the title", "**bold** move by the team", "tRNA", "pH", "hELLO wORLD", "NASA pH", "tRNA: pH 7", "iPhone and eBay", "mRNA", "", " ", "a", "A", ".", "1", "the", "THE", "ß", "İstanbul", "i̇stanbul", "ǅ", "o'clock", "O’Clock"] {
         texts.push(t.to_string());
     }
-    let evs = par_map(texts.len(), a.num("threads", 12) as usize, |_| (), |_, i| {
-        one(&texts[i], if i % 5 == 0 { "wasm" } else { "core" })
-    });
+    // the hand-picked texts (the last ones pushed) go through every api; Markdown-looking variants of generated texts too
+    let nspecial = 22;
+    let mut jobs: Vec<(String, &str)> = texts.iter().enumerate().map(|(i, t)| (t.clone(), if i % 5 == 0 { "wasm" } else if i % 5 == 1 { "after-md" } else { "core" })).collect();
+    for t in texts.iter().rev().take(nspecial) { for api in ["wasm", "after-md", "core"] { jobs.push((t.clone(), api)); } }
+    for (i, t) in texts.iter().enumerate().take(400) {
+        let md = match i % 4 { 0 => format!("# {t}"), 1 => format!("*{t}* and more"), 2 => format!("`{t}` is here"), _ => format!("- {t}") };
+        jobs.push((md, "after-md"));
+    }
+    let evs = par_map(jobs.len(), a.num("threads", 12) as usize, |_| (), |_, i| one(&jobs[i].0, jobs[i].1));
     for e in evs {
         out.emit(&e);
     }
